@@ -22,6 +22,9 @@ def obligations(tier):
     for tf in (None, "T1", "T5"):
         for life in (60, 150, 400):
             obs.append(Ob(f"window/tf={tf}/lifespan={life}s/n={n1}", dict(n=n1, tf=tf, life=life), dict(round="ideal", div="assume"), fn="run_window", weight=50, budget_s=900, max_paths=200000))
+    # lifespans of a day and more (timedelta(days=1, hours=1), timedelta(days=3)): the window is the whole duration
+    for tf, life in ((None, 90000), ("H1", 90000), (None, 259200), ("D1", 259200)):
+        obs.append(Ob(f"window/tf={tf}/lifespan={life}s/n={n1}", dict(n=n1, tf=tf, life=life), dict(round="ideal", div="assume"), fn="run_window", weight=50, budget_s=900, max_paths=200000))
     # the window clause over a gap-filled timeframe: the retained candles are the tail of the contiguous filled series
     for tf in (("T5",) if tier == "quick" else ("T1", "T5", "H1")):
         for life_buckets in (1, 2, 3):
